@@ -182,6 +182,11 @@ class Exec(ExprMixin):
             st.locals[t.id] = v
             return
         if isinstance(t, (ast.Tuple, ast.List)):
+            if v.kind == 'ref' and v.cls in self.reg.classes and getattr(self.reg.classes[v.cls], 'tuple_fields', None):
+                flds = self.reg.classes[v.cls].tuple_fields
+                if len(flds) != len(t.elts):
+                    raise Unsupported('tuple arity')
+                v = sv_tuple([self.get_attr(v, f, st) for f in flds])
             if v.kind != 'tuple' or len(v.elts) != len(t.elts):
                 raise Unsupported('unpacking of non-static tuple')
             for x, y in zip(t.elts, v.elts):
